@@ -1,6 +1,7 @@
 import Pandora.Drv.Util
 import Pandora.Spec.C03
 import Pandora.Model.C03Fine
+import Pandora.Model.C03Comp
 
 /-!
 C03 driver.  Input: `inst=<startup tokens> shared=<0|1> tokens=<n> ammo=<n|-1> discard=<0|1|absent> …` (the other keys only
@@ -21,9 +22,15 @@ carry `t<i>:<field>.<op>` = instance i performed that atomic operation on the sc
 Next, `i.Load` inside Left; anything else is not an operation of the model and is rejected).  In such a log `n<i>` /
 `x<i>` / `c<i>:<left>` are the RETURNS of the calls.  In a log without access events (`fine` absent) the access is taken
 to happen right before the return.  A negative `Left()` is no event of the model (rejected).
+
+`fine=1` on a COMPOSITE profile (observation `parts=<tokens of part 0>,<of part 1>,…` with two or more parts): the
+scheduling points are the ones before the composite's `Lock` / `RLock` statements, the log carries `t<i>:Next.RLock`
+(instance i ran the reader section of its `Next()`), `t<i>:Next.Lock` (its writer section), `t<i>:Left.RLock`; such a log
+is replayed through `Model.C03Comp.cstep` — the composite's own answer, computed section by section from the parts, must
+be what the log says AND what the pool's token counter says (`Proofs.C03Comp.comp_refines`).
 -/
 namespace Pandora.Drv.C03
-open Pandora.Drv Pandora.Model.C03 Pandora.Model.C03Fine Pandora.Spec.C03
+open Pandora.Drv Pandora.Model.C03 Pandora.Model.C03Fine Pandora.Model.C03Comp Pandora.Spec.C03
 
 def nat2 (r : List Char) : Option (Nat × Nat) :=
   match (String.ofList r).splitOn ":" with
@@ -86,6 +93,30 @@ def replay (c : Cfg) (fine : Bool) : FSt → List (Obs × String) → Nat → Ex
     | some s' => replay c fine s' es (k + 1)
     | none => .error s!"rejected@{k}:{txt}"
 
+/-- the same for a log of the composite's lock sections (`Model.C03Comp`) -/
+def expandC (s : CSt) (o : Obs) : Option (List CEv) :=
+  let pre := if o.inst == s.f.base.started then [CEv.other (.start o.inst)] else []
+  match o with
+  | .impossible _ => none
+  | .acc i w =>
+    if w == "Next.RLock" then some (pre ++ [.rsec i])
+    else if w == "Next.Lock" then some (pre ++ [.wsec i])
+    else if w == "Left.RLock" then some (pre ++ [.lsec i])
+    else none    -- `Left.Lock`: the writer section of `Left()` is for profiles with an unlimited part only
+  | .ev (.shoot i k) => some (pre ++ [.other (.reqAdd i), .other (.shoot i k)])
+  | .ev (.rel i k) => some (pre ++ (if s.f.base.pcs[i]? == some .shot then [.other (.respAdd i)] else []) ++ [.other (.rel i k)])
+  | .ev (.chk i l) => some (pre ++ [.leftRet i l])
+  | .ev (.tokOk i) => some (pre ++ [.nextRet i true])
+  | .ev (.tokEnd i) => some (pre ++ [.nextRet i false])
+  | .ev e => some (pre ++ [.other e])
+
+def replayC (c : Cfg) (parts : List Nat) : CSt → List (Obs × String) → Nat → Except String CSt
+  | s, [], _ => .ok s
+  | s, (o, txt) :: es, k =>
+    match (expandC s o).bind (crun c parts s) with
+    | some s' => replayC c parts s' es (k + 1)
+    | none => .error s!"rejected@{k}:{txt}"
+
 /-- key of pool `j`: the plain key for a single pool, `key.j` when the engine runs several -/
 def pkey (pools j : Nat) (k : String) : String := if pools ≤ 1 then k else s!"{k}.{j}"
 
@@ -116,7 +147,16 @@ def poolOf (kv o : List (String × String)) (pools j : Nat) : Option PoolRes :=
   | none => none
   | some evs =>
     let cnt (p : Ev → Bool) := (evs.filter (fun e => match e.1 with | .ev e => p e | _ => false)).length
-    let r := replay c fine (finit c) evs 0
+    -- the tokens of the profile part by part (a composite when there are two or more)
+    let parts : List Nat := if g "parts" == "" then [] else (splitList (g "parts")).filterMap (·.toNat?)
+    let compMode := fine && parts.length ≥ 2
+    let r : Except String FSt :=
+      if compMode then
+        if (parts.map (·)).sum != c.tokens then .error s!"parts-mismatch:{g "parts"} exact {c.tokens}"
+        else match replayC c parts (cinitWith c parts) evs 0 with
+          | .ok s => if s.w.all (· == none) then .ok s.f else .error "not-terminal"
+          | .error e => .error e
+      else replay c fine (finit c) evs 0
     let st := match r with | .ok s => some s.base | .error _ => none
     -- a single pool: InstanceStart is this pool's; several pools: the instances seen in this pool's log
     let seen := (evs.map (fun e => e.1.inst)).foldl (fun m i => max m (i + 1)) 0
